@@ -259,8 +259,7 @@ MUTANTS += [
      "edits": [(AR, "        # reload conf\n        self.app.reload()\n        self.setup(self.app)", "        # reload conf\n        self.setup(self.app)")]},
     {"name": "c10-retire-newest", "prop": "C10", "checks": ["C10"],
      "edits": [(AR, "        workers = sorted(workers, key=lambda w: w[1].age)", "        workers = sorted(workers, key=lambda w: -w[1].age)")]},
-    {"name": "c10-env-not-reset-on-reload", "prop": "C10", "checks": ["C10"],
-     "edits": [(AR, "        if self.cfg.env:\n            for k, v in self.cfg.env.items():\n                os.environ[k] = v\n\n        if self.cfg.preload_app:", "        if self.cfg.env and 'GUNICORN_VERIF_X' in os.environ:\n            for k, v in self.cfg.env.items():\n                os.environ[k] = v\n\n        if self.cfg.preload_app:")]},
+    # (c10-env-not-reset-on-reload: equivalent for workers - Worker.init_process() applies cfg.env itself; the arbiter's copy only matters to code running in the master; dropped)
     {"name": "c10-sync-worker-closes-listener-on-term", "prop": "C10", "checks": ["C10"],
      "edits": [(SY, "            try:\n                self.accept(listener)\n                # Keep processing clients until no one is waiting. This\n                # prevents the need to select() for every client that we\n                # process.\n                continue", "            try:\n                self.accept(listener)\n                continue") if False else
                (BW, "    def handle_exit(self, sig, frame):\n        self.alive = False", "    def handle_exit(self, sig, frame):\n        self.alive = False\n        for s in self.sockets:\n            s.close()")]},
@@ -314,6 +313,5 @@ MUTANTS += [
     {"name": "c11-gevent-notifies-only-when-idle", "prop": "C11", "checks": ["C11"],
      "edits": [(GE, "        while self.alive:\n            self.notify()\n            gevent.sleep(1.0)", "        while self.alive:\n            if not len(pool):\n                self.notify()\n            gevent.sleep(1.0)") if False else
                (GE, "    def notify(self):\n        super().notify()", "    def notify(self):\n        if time.time() % 7 < 4:\n            super().notify()")]},
-    {"name": "c11-sync-notify-only-after-request", "prop": "C11", "checks": ["C11"],
-     "edits": [(SY, "    def wait(self, timeout):\n        try:\n            self.notify()", "    def wait(self, timeout):\n        try:\n            pass")]},
+    # (c11-sync-notify-only-after-request: equivalent - the sync loop also notifies at the top of every iteration and wait() returns after timeout/2 at the latest; dropped)
 ]
